@@ -316,6 +316,24 @@ CASES["known/KF-C15-1.json"] = intro_case("differs", ["directive @tag(name: Stri
 CASES["known/KF-C15-1.json"]["title"] = "repeatable is lost from remote directive definitions (the introspection query does not ask for isRepeatable)"
 CASES["known/KF-C15-1.json"]["gate"] = "remote.repeatableDirective"
 
+C16_KNOWN = [
+ ("KF-C16-1", "op.directives", "@skip/@include on introspection selections are ignored", '{ __schema { queryType { name kind @skip(if: true) } } }'),
+ ("KF-C16-2", "op.aliasEqualsSiblingName", "introspection: a field whose alias equals the name of an earlier sibling is dropped", '{ __type(name: "Query") { x: name name: kind } }'),
+ ("KF-C16-3", "op.duplicateResponseKey", "introspection: the same response key selected twice keeps only the first sub-selection", '{ __schema { queryType { name } queryType { kind } } }'),
+]
+for kid, gate, title, q in C16_KNOWN:
+    c = exec_case("C16", "differs", q)
+    c["title"] = title
+    c["gate"] = gate
+    CASES["known/%s.json" % kid] = c
+CASES["regress/KF-C16-10.json"] = exec_case("C16", "differs", 'query($n: String!) { __type(name: $n) { name kind } }', {"n": "Human"})
+CASES["regress/KF-C16-11.json"] = exec_case("C16", "differs", '{ __type(name: "Human") { name fields { name } interfaces { name } enumValues { name } inputFields { name } possibleTypes { name } } s: __type(name: "String") { fields { name } interfaces { name } } }')
+CASES["regress/KF-C16-12.json"] = exec_case("C16", "differs", '{ __schema { __typename description directives { name isRepeatable __typename } types { __typename name fields { __typename args { __typename } } } } }')
+CASES["regress/KF-C16-13.json"] = exec_case("C16", "differs", '{ __type(name: "Being") { possibleTypes { name } } }', w=ifworld())
+_W16 = world(extra0="input Flt {\n  q: Int = 5\n  tags: [String] = [\"a\"]\n}\nscalar Stamp @specifiedBy(url: \"https://example.com/stamp\")\nenum E {\n  A @deprecated\n  B\n}\n")
+_W16["union_sdl"] += "input Flt {\n  q: Int = 5\n  tags: [String] = [\"a\"]\n}\nscalar Stamp @specifiedBy(url: \"https://example.com/stamp\")\nenum E {\n  A @deprecated\n  B\n}\n"
+CASES["regress/KF-C16-14.json"] = exec_case("C16", "differs", '{ f: __type(name: "Flt") { inputFields { name defaultValue } } s: __type(name: "Stamp") { specifiedByURL } e: __type(name: "E") { enumValues(includeDeprecated: true) { name deprecationReason } } }', w=_W16)
+
 if __name__ == "__main__":
     import sys
     sys.path.insert(0, os.path.dirname(os.path.abspath(__file__)))
